@@ -8,6 +8,6 @@ CONSTANTS
   Alphabet = {97, 49, 45, 20320, 769, 27, 91, 109, 32}
   MaxLen = 4
   Limits = {0, 1, 2, 3}
-  Splitters = {"none", "hyphen", "every2"}
+  Splitters = {"none", "hyphen", "every2", "half"}
 INVARIANTS BreakInv SplitInv SplitRefines PropBreak PropSplit Emit
 CHECK_DEADLOCK FALSE
